@@ -7,6 +7,7 @@ import (
 	"sort"
 	"strconv"
 	"strings"
+	"time"
 
 	"verifharness/simpeer"
 	"verifharness/world"
@@ -29,6 +30,9 @@ type c07ex struct {
 	base
 	c     *world.Chan
 	fresh int
+
+	forceNonce string // nonce of the next signed request (op future)
+	futureSeq  int64
 }
 
 func (e *c07ex) user(name string) *simpeer.User {
@@ -129,6 +133,10 @@ func (e *c07ex) call(mode string, u *simpeer.User, fn string, args ...string) st
 	wd := theWorld()
 	commit := mode[0] == 'c'
 	signed := e.c.Signed(u, fn, args...)
+	if e.forceNonce != "" {
+		signed = e.c.SignedN(u, e.forceNonce, fn, args...)
+		e.forceNonce = ""
+	}
 	var r *simpeer.Result
 	var resp *fpb.BatchResponse
 	if mode[1] == 't' {
@@ -300,6 +308,20 @@ func (e *c07ex) Exec(op string) string {
 		}
 		e.nontrivial = true
 		return okErr(e.call(mode, u(0), "transfer", u(1).Addr, a[2], "ref"))
+	case "future":
+		// a request whose nonce (a client's clock reading in ms) is ahead of this machine's clock by the
+		// given number of ms: acceptance depends on the sender's stored window only, never on the wall
+		// clock of whoever simulates. The sender is used by nothing else in the history.
+		if len(a) != 1 {
+			return "bad-op"
+		}
+		d, err := strconv.ParseInt(a[0], 10, 64)
+		if err != nil {
+			return "bad-op"
+		}
+		e.futureSeq++
+		e.forceNonce = strconv.FormatInt(time.Now().UnixMilli()+d+e.futureSeq, 10)
+		return okErr(e.call(mode, wd.Users[3], "script", "nop"))
 	case "bad":
 		// requests that fail, each for another reason: the refusal (its text included) is part of the
 		// result and has to be the same bytes on every instance
@@ -422,7 +444,9 @@ func genC07(c *Cfg, emit func([]string)) {
 		}
 		for j := 0; j < n; j++ {
 			mode := pick("cb", "ct", "db", "dt", "dt", "db")
-			switch c.Rng.Intn(14) {
+			switch c.Rng.Intn(15) {
+			case 14:
+				h = append(h, mode+" future "+pick("0", "30000", "200000", "3600000", "86400000"))
 			case 12, 13:
 				h = append(h, mode+" bad "+pick(users...)+" "+pick(badKinds...))
 			case 0, 1:
@@ -450,7 +474,7 @@ func genC07(c *Cfg, emit func([]string)) {
 		h = append(h, "dt meta", "bal")
 		emit(h)
 	}
-	c.Rule = "random histories of committed and simulated-and-dropped proposals (emit, setFee valid/invalid, setFeeAddress, setRate, transfer, multi-write scripts, multi-transfer requests, queries, and 20 kinds of failing requests: malformed / negative / oversized amounts and asset lists of swaps, multi-swaps, transfers and locks, strangers calling issuer methods, failing scripts) on both routes; every proposal is simulated on the long-lived instance, on a fresh instance and again on the long-lived one and the three results are compared byte for byte; non-trivial = contains a setFee or a transfer"
+	c.Rule = "random histories of committed and simulated-and-dropped proposals (emit, setFee valid/invalid, setFeeAddress, setRate, transfer, multi-write scripts, multi-transfer requests, queries, requests whose nonce is 0 s .. 1 day ahead of this machine's clock, and 20 kinds of failing requests: malformed / negative / oversized amounts and asset lists of swaps, multi-swaps, transfers and locks, strangers calling issuer methods, failing scripts) on both routes; every proposal is simulated on the long-lived instance, on a fresh instance and again on the long-lived one and the three results are compared byte for byte; non-trivial = contains a setFee or a transfer"
 }
 
 func jsonField(p, field string) string {
